@@ -35,7 +35,7 @@ NODE_NAMES = ["n09", "9", "VsR", "L"]             # '9' < 'L' < 'VsR' < 'n09'; '
 
 
 def budget_s(tier):
-    return 500 if tier == "quick" else 7200
+    return 1500 if tier == "quick" else 10800
 
 
 def shards(tier):
